@@ -509,6 +509,7 @@ func (w *gWorld) route(i, s int) string {
 		return l, rem
 	}
 	l0, r0 := count()
+	_, hadLocalChan := sm.GetRemoteSendChan(gShard(s)) // a local stream's channel is registered on this node right now
 	msg := &proxy.RoutedMessage{SourceShard: gSrcShard, Resp: msgResp(int64(100 + w.routeN))}
 	ok := sm.DeliverMessagesToShardOwner(gShard(s), msg, channel.NewShutdownOnce(), log.NewNoopLogger())
 	l1, r1 := count()
@@ -547,6 +548,13 @@ func (w *gWorld) route(i, s int) string {
 		for len(ch) > 0 {
 			<-ch
 		}
+	}
+	// monitor (routing clause): "handed to its local stream if one exists, otherwise to the known remote owner" — a local
+	// stream for the shard is open on this node (its channel is in the registry), so the message belongs to it whoever the
+	// ownership tables name
+	if hadLocalChan && who != "local" {
+		w.violation(fmt.Sprintf("node %d has an open local stream for shard %d, yet the message was %s (delivery returned %v): a message is handed to the local stream if one exists", i, s,
+			map[bool]string{true: "sent to " + who, false: "handed to nobody"}[who != "none"], ok), nil)
 	}
 	// monitor (routing clause): true iff exactly one recipient, false iff none
 	if ok && recipients != 1 {
